@@ -31,7 +31,7 @@ PROPERTIES: dict[str, dict] = {
     "C07": {"title": "More information never hurts", "rules": [bounds.rule_bounds],
             "explanation": _NOTE + " C07: B13 knowledge polarity of every candidate set in all registered computers.",
             "rule": _SITE_RULE},
-    "C08": {"title": "Bounds depend only on current knowledge", "rules": [bounds.rule_bounds, gym.rule_h3_undo, game.rule_c17_copy_neg_init],
+    "C08": {"title": "Bounds depend only on current knowledge", "rules": [bounds.rule_bounds, gym.rule_h3_undo, game.rule_c17_copy_neg_init, game.rule_c17_columns],
             "explanation": _NOTE + " C08: B1-B5 for all six registered computers, H1 no hidden state.",
             "rule": _SITE_RULE},
     "C09": {"title": "The reveal-one-coalition environment", "rules": [gym.rule_c09_typestate, gym.rule_c09_step, gym.rule_c09_spaces, gym.rule_c09_reset, gym.rule_c09_done, gym.rule_h3_undo],
